@@ -27,30 +27,17 @@ theorem dsf_info_decodes_partial (h : Fields) (ok : h.OK) (h1 : h.bitsPerSample 
   rw [Dsf.parse_build h ok rest]
   simp only [expected, h1, Nat.mul_one]
 
-/-- C04 side: on EVERY byte string, loading and reading the attributes returns, raises a MutagenError, or
-raises ZeroDivisionError — the latter exactly when the file loads and its sampling-frequency field
-(bytes 56…59) is 0 -/
-theorem dsf_info_classes (f : Bytes) : ∀ e, Dsf.parse f = .error e →
-    e = .mutagen ∨ (e = .zeroDiv ∧ ofLE (readAt f 56 4) = 0) :=
-  fun e h => Dsf.parse_classes f e h
+/-- C04 side: on EVERY byte string, loading and reading the attributes returns or raises a MutagenError -/
+theorem dsf_info_total (f : Bytes) : ∀ e, Dsf.parse f = .error e → e = .mutagen :=
+  fun e h => Dsf.parse_clean f e h
 
-/-- … so, with a sampling-frequency field other than 0, nothing but MutagenError -/
-theorem dsf_info_total_partial (f : Bytes) (hrate : ofLE (readAt f 56 4) ≠ 0) :
-    ∀ e, Dsf.parse f = .error e → e = .mutagen := by
-  intro e h
-  rcases Dsf.parse_classes f e h with h' | ⟨_, h0⟩
-  · exact h'
-  · exact absurd h0 hrate
-
-/-- the witness: a 92-byte DSF file (stereo, sampling frequency 0) loads, and `info.length` raises
-ZeroDivisionError -/
+/-- the former witness of a ZeroDivisionError (repaired in /repo 71557fa): a 92-byte DSF file, stereo,
+sampling frequency 0 — `FormatChunk.load` now raises the format's error -/
 def dsfZeroRate : Bytes :=
   build { totalSize := 92, metadataPointer := 0, channelType := 2, channelNum := 2, samplingFrequency := 0,
           bitsPerSample := 1, sampleCount := 1000, blockSize := 4096, reserved := 0, data := [] }
 
-theorem dsf_zero_rate_witness :
-    (Dsf.load dsfZeroRate).toOption.map (·.channelNum) = some 2 ∧ Dsf.parse dsfZeroRate = .error .zeroDiv := by
-  decide +kernel
+example : Dsf.parse dsfZeroRate = .error .mutagen := by decide +kernel
 
 /-- stereo DSD64 with MSB-first packing: 5644800 bit/s of audio, 45158400 reported -/
 def msbWitness : Fields :=
